@@ -15,6 +15,8 @@ broadcast use {group_byte_keys, group_slice, axiom_hashset_len_bound, vstd::std_
 //@@ item src/error.rs StorageError
 //@@ item src/error.rs ScriptError
 pub type Result<T> = std::result::Result<T, FerrousError>;
+//@@ item src/protocol/resp.rs Bytes
+//@@ item src/protocol/resp.rs RespFrame
 //@@ item src/pubsub.rs Subscription
 //@@ item src/pubsub.rs SubscriberInfo
 //@@ item src/pubsub.rs SubResult
@@ -22,7 +24,7 @@ pub type Result<T> = std::result::Result<T, FerrousError>;
 /// the glob relation between a pattern and a channel name (pubsub.rs pattern_matches; its own body is not under contract here)
 pub uninterp spec fn spec_glob(p: Seq<u8>, c: Seq<u8>) -> bool;
 #[verifier::external_body]
-pub fn verif_pattern_matches(pattern: &Vec<u8>, channel: &[u8]) -> (r: bool) ensures r == spec_glob(pattern@, channel@), { unimplemented!() }
+pub fn verif_pattern_matches(pattern: &[u8], channel: &[u8]) -> (r: bool) ensures r == spec_glob(pattern@, channel@), { unimplemented!() }
 
 /// one delivery: the receiving connection and, for a pattern subscription, the pattern that matched
 pub type Delivery = (u64, Option<Seq<u8>>);
@@ -260,7 +262,7 @@ pub open spec fn sub_result_ok(r: SubResult, conns: Map<u64, SubscriberInfo>, id
 //@@   loopstart 0
 //@@|     let ghost ci0 = conn_info.channels@; let ghost ch0 = channel_subs@; let ghost i = it.index@ as int;
 //@@|     proof { assert(channel == channels@[i]); lemma_prefix_step(channels@, i); }
-//@@   after "let is_new = if !already_subscribed"
+//@@   at "let total_subs = conn_info.channels.len() + conn_info.patterns.len();"
 //@@|     proof {
 //@@|         assert(conn_info.channels@ =~= ci0.insert(channel));
 //@@|         assert forall|k: Vec<u8>| #[trigger] members(channel_subs@, k) =~= (if k == channel { members(ch0, k).insert(connection_id) } else { members(ch0, k) }) by { }
@@ -335,7 +337,7 @@ pub open spec fn psub_result_ok(r: SubResult, conns: Map<u64, SubscriberInfo>, i
 //@@   loopstart 0
 //@@|     let ghost ci0 = conn_info.patterns@; let ghost ch0 = pattern_subs@; let ghost i = it.index@ as int;
 //@@|     proof { assert(pattern == patterns@[i]); lemma_prefix_step(patterns@, i); }
-//@@   after "if is_new {"
+//@@   at "let total_subs = conn_info.channels.len() + conn_info.patterns.len();"
 //@@|     proof {
 //@@|         assert(conn_info.patterns@ =~= ci0.insert(pattern));
 //@@|         assert(is_new == !ci0.contains(pattern));
@@ -353,6 +355,218 @@ fn psubscribe(conn_subs: &mut HashMap<u64, SubscriberInfo>, pattern_subs: &mut H
         // one acknowledgement per named channel, in order, each with the count right after that subscription
         r->Ok_0@.len() == patterns@.len(),
         forall|i: int| 0 <= i < patterns@.len() ==> psub_result_ok(#[trigger] r->Ok_0@[i], old(conn_subs)@, connection_id, patterns@, i),
+//@@ body
+//@@ end
+
+// ======================= UNSUBSCRIBE =========================
+/// `set.iter().cloned().collect()` into a Vec (RXPR site): every member exactly once, in some order
+#[verifier::external_body]
+fn verif_set_to_vec(s: &HashSet<Vec<u8>>) -> (r: Vec<Vec<u8>>)
+    ensures r@.no_duplicates(), r@.to_set() =~= s@,
+{ unimplemented!() }
+/// the i-th acknowledgement of UNSUBSCRIBE: names the i-th channel and carries the count that remains after it
+pub open spec fn unsub_result_ok(r: SubResult, conns: Map<u64, SubscriberInfo>, id: u64, list: Seq<Vec<u8>>, i: int) -> bool {
+    r.subscription == Subscription::Channel(list[i])
+    && r.num_subscriptions == chans_of(conns, id).difference(prefix_set(list, i + 1)).len() + pats_of(conns, id).len()
+    && !r.is_new
+}
+
+//@@ unit unsubscribe fn src/pubsub.rs PubSubManager::unsubscribe
+//@@   rewrite R2
+//@@   rewrite RXPR "conn_info.channels.iter().cloned().collect()" "verif_set_to_vec(&conn_info.channels)"
+//@@   rewrite RFOR 0 it
+//@@   params drop "&self" add "conn_subs: &mut HashMap<u64, SubscriberInfo>" "channel_subs: &mut HashMap<Vec<u8>, HashSet<u64>>"
+//@@   loop 0
+//@@|     invariant
+//@@|         it.seq() == list, it.history@ =~= it.seq().take(it.index@),
+//@@|         old(conn_subs)@.contains_key(connection_id),
+//@@|         others_agree(old(conn_subs)@, channel_subs@, connection_id),
+//@@|         forall|ch: Vec<u8>| (#[trigger] conn_info.channels@.contains(ch)) <==> (#[trigger] members(channel_subs@, ch).contains(connection_id)),
+//@@|         conn_info.patterns@ == pats_of(old(conn_subs)@, connection_id),
+//@@|         conn_info.channels@ =~= chans_of(old(conn_subs)@, connection_id).difference(prefix_set(list, it.index@ as int)),
+//@@|         results@.len() == it.index@,
+//@@|         forall|i: int| 0 <= i < results@.len() ==> unsub_result_ok(#[trigger] results@[i], old(conn_subs)@, connection_id, list, i),
+//@@   at "for channel in channels_to_remove"
+//@@|     let ghost list = channels_to_remove@;
+//@@|     proof {
+//@@|         assert(conn_info.channels@ == chans_of(old(conn_subs)@, connection_id));
+//@@|         assert forall|ch: Vec<u8>| (#[trigger] conn_info.channels@.contains(ch)) <==> (#[trigger] members(channel_subs@, ch).contains(connection_id)) by {
+//@@|             assert(chans_of(old(conn_subs)@, connection_id).contains(ch) <==> members(channel_subs@, ch).contains(connection_id));
+//@@|         }
+//@@|         assert(prefix_set(list, 0) =~= Set::<Vec<u8>>::empty());
+//@@|     }
+//@@   loopstart 0
+//@@|     let ghost ci0 = conn_info.channels@; let ghost ch0 = channel_subs@; let ghost i = it.index@ as int;
+//@@|     proof { assert(channel == list[i]); lemma_prefix_step(list, i); }
+//@@   at "results.push(SubResult"
+//@@|     proof {
+//@@|         assert(conn_info.channels@ =~= ci0.remove(channel));
+//@@|         assert forall|k: Vec<u8>| #[trigger] members(channel_subs@, k) =~= (if k == channel { members(ch0, k).remove(connection_id) } else { members(ch0, k) }) by { }
+//@@|     }
+//@@   after "results.push(SubResult"
+//@@|     proof {
+//@@|         let rr = results@[i];
+//@@|         assert(conn_info.channels@ =~= chans_of(old(conn_subs)@, connection_id).difference(prefix_set(list, i + 1)));
+//@@|         assert(unsub_result_ok(rr, old(conn_subs)@, connection_id, list, i));
+//@@|     }
+//@@   afterloop 0
+//@@|     let ghost ci_final = *conn_info; let ghost chf = channel_subs@;
+//@@|     proof { assert(list.take(list.len() as int) =~= list); }
+//@@   at "Ok(results)"
+//@@|     proof {
+//@@|         assert forall|c: u64, ch: Vec<u8>| (#[trigger] chans_of(conn_subs@, c).contains(ch)) <==> (#[trigger] members(channel_subs@, ch).contains(c)) by {
+//@@|             if c != connection_id { assert(chans_of(conn_subs@, c) == chans_of(old(conn_subs)@, c)); assert(chans_of(old(conn_subs)@, c).contains(ch) <==> members(channel_subs@, ch).contains(c)); }
+//@@|             else { assert(chans_of(conn_subs@, c) =~= ci_final.channels@); assert(ci_final.channels@.contains(ch) <==> members(chf, ch).contains(connection_id)); }
+//@@|         }
+//@@|     }
+fn unsubscribe(conn_subs: &mut HashMap<u64, SubscriberInfo>, channel_subs: &mut HashMap<Vec<u8>, HashSet<u64>>, connection_id: u64, channels: Option<Vec<Vec<u8>>>) -> (r: Result<Vec<SubResult>>)
+    requires chan_inv(old(conn_subs)@, old(channel_subs)@),
+    ensures
+        r is Ok,
+        chan_inv(final(conn_subs)@, final(channel_subs)@),
+        // patterns and every other connection are untouched
+        pats_of(final(conn_subs)@, connection_id) == pats_of(old(conn_subs)@, connection_id),
+        forall|c: u64| c != connection_id ==> (final(conn_subs)@.contains_key(c) == old(conn_subs)@.contains_key(c)) && (old(conn_subs)@.contains_key(c) ==> #[trigger] final(conn_subs)@[c] == old(conn_subs)@[c]),
+        // a connection without any subscription: nothing changes (and, in this implementation, nothing is acknowledged)
+        !old(conn_subs)@.contains_key(connection_id) ==> r->Ok_0@.len() == 0 && final(conn_subs)@ == old(conn_subs)@ && final(channel_subs)@ == old(channel_subs)@,
+        // otherwise: the named channels (or all of them) are gone from the connection's set, one acknowledgement per channel in
+        // order, each carrying the count that remains right after it
+        old(conn_subs)@.contains_key(connection_id) ==> exists|list: Seq<Vec<u8>>|
+            (match channels { Some(l) => list == l@, None => list.no_duplicates() && list.to_set() =~= chans_of(old(conn_subs)@, connection_id) })
+            && chans_of(final(conn_subs)@, connection_id) =~= chans_of(old(conn_subs)@, connection_id).difference(list.to_set())
+            && r->Ok_0@.len() == list.len()
+            && (forall|i: int| 0 <= i < list.len() ==> unsub_result_ok(#[trigger] r->Ok_0@[i], old(conn_subs)@, connection_id, list, i)),
+//@@ body
+//@@ end
+
+// ======================= PUNSUBSCRIBE =========================
+/// the i-th acknowledgement of PUNSUBSCRIBE: names the i-th pattern and carries the count that remains after it
+pub open spec fn punsub_result_ok(r: SubResult, conns: Map<u64, SubscriberInfo>, id: u64, list: Seq<Vec<u8>>, i: int) -> bool {
+    r.subscription == Subscription::Pattern(list[i])
+    && r.num_subscriptions == pats_of(conns, id).difference(prefix_set(list, i + 1)).len() + chans_of(conns, id).len()
+    && !r.is_new
+}
+
+//@@ unit punsubscribe fn src/pubsub.rs PubSubManager::punsubscribe
+//@@   rewrite R2
+//@@   rewrite RXPR "conn_info.patterns.iter().cloned().collect()" "verif_set_to_vec(&conn_info.patterns)"
+//@@   rewrite RFOR 0 it
+//@@   params drop "&self" add "conn_subs: &mut HashMap<u64, SubscriberInfo>" "pattern_subs: &mut HashMap<Vec<u8>, HashSet<u64>>"
+//@@   loop 0
+//@@|     invariant
+//@@|         it.seq() == list, it.history@ =~= it.seq().take(it.index@),
+//@@|         old(conn_subs)@.contains_key(connection_id),
+//@@|         p_others_agree(old(conn_subs)@, pattern_subs@, connection_id),
+//@@|         forall|ch: Vec<u8>| (#[trigger] conn_info.patterns@.contains(ch)) <==> (#[trigger] members(pattern_subs@, ch).contains(connection_id)),
+//@@|         conn_info.channels@ == chans_of(old(conn_subs)@, connection_id),
+//@@|         conn_info.patterns@ =~= pats_of(old(conn_subs)@, connection_id).difference(prefix_set(list, it.index@ as int)),
+//@@|         results@.len() == it.index@,
+//@@|         forall|i: int| 0 <= i < results@.len() ==> punsub_result_ok(#[trigger] results@[i], old(conn_subs)@, connection_id, list, i),
+//@@   at "for pattern in patterns_to_remove"
+//@@|     let ghost list = patterns_to_remove@;
+//@@|     proof {
+//@@|         assert(conn_info.patterns@ == pats_of(old(conn_subs)@, connection_id));
+//@@|         assert forall|ch: Vec<u8>| (#[trigger] conn_info.patterns@.contains(ch)) <==> (#[trigger] members(pattern_subs@, ch).contains(connection_id)) by {
+//@@|             assert(pats_of(old(conn_subs)@, connection_id).contains(ch) <==> members(pattern_subs@, ch).contains(connection_id));
+//@@|         }
+//@@|         assert(prefix_set(list, 0) =~= Set::<Vec<u8>>::empty());
+//@@|     }
+//@@   loopstart 0
+//@@|     let ghost ci0 = conn_info.patterns@; let ghost ch0 = pattern_subs@; let ghost i = it.index@ as int;
+//@@|     proof { assert(pattern == list[i]); lemma_prefix_step(list, i); }
+//@@   at "results.push(SubResult"
+//@@|     proof {
+//@@|         assert(conn_info.patterns@ =~= ci0.remove(pattern));
+//@@|         assert forall|k: Vec<u8>| #[trigger] members(pattern_subs@, k) =~= (if k == pattern { members(ch0, k).remove(connection_id) } else { members(ch0, k) }) by { }
+//@@|     }
+//@@   after "results.push(SubResult"
+//@@|     proof {
+//@@|         let rr = results@[i];
+//@@|         assert(conn_info.patterns@ =~= pats_of(old(conn_subs)@, connection_id).difference(prefix_set(list, i + 1)));
+//@@|         assert(punsub_result_ok(rr, old(conn_subs)@, connection_id, list, i));
+//@@|     }
+//@@   afterloop 0
+//@@|     let ghost ci_final = *conn_info; let ghost chf = pattern_subs@;
+//@@|     proof { assert(list.take(list.len() as int) =~= list); }
+//@@   at "Ok(results)"
+//@@|     proof {
+//@@|         assert forall|c: u64, ch: Vec<u8>| (#[trigger] pats_of(conn_subs@, c).contains(ch)) <==> (#[trigger] members(pattern_subs@, ch).contains(c)) by {
+//@@|             if c != connection_id { assert(pats_of(conn_subs@, c) == pats_of(old(conn_subs)@, c)); assert(pats_of(old(conn_subs)@, c).contains(ch) <==> members(pattern_subs@, ch).contains(c)); }
+//@@|             else { assert(pats_of(conn_subs@, c) =~= ci_final.patterns@); assert(ci_final.patterns@.contains(ch) <==> members(chf, ch).contains(connection_id)); }
+//@@|         }
+//@@|     }
+fn punsubscribe(conn_subs: &mut HashMap<u64, SubscriberInfo>, pattern_subs: &mut HashMap<Vec<u8>, HashSet<u64>>, connection_id: u64, patterns: Option<Vec<Vec<u8>>>) -> (r: Result<Vec<SubResult>>)
+    requires pat_inv(old(conn_subs)@, old(pattern_subs)@),
+    ensures
+        r is Ok,
+        pat_inv(final(conn_subs)@, final(pattern_subs)@),
+        // patterns and every other connection are untouched
+        chans_of(final(conn_subs)@, connection_id) == chans_of(old(conn_subs)@, connection_id),
+        forall|c: u64| c != connection_id ==> (final(conn_subs)@.contains_key(c) == old(conn_subs)@.contains_key(c)) && (old(conn_subs)@.contains_key(c) ==> #[trigger] final(conn_subs)@[c] == old(conn_subs)@[c]),
+        // a connection without any subscription: nothing changes (and, in this implementation, nothing is acknowledged)
+        !old(conn_subs)@.contains_key(connection_id) ==> r->Ok_0@.len() == 0 && final(conn_subs)@ == old(conn_subs)@ && final(pattern_subs)@ == old(pattern_subs)@,
+        // otherwise: the named channels (or all of them) are gone from the connection's set, one acknowledgement per channel in
+        // order, each carrying the count that remains right after it
+        old(conn_subs)@.contains_key(connection_id) ==> exists|list: Seq<Vec<u8>>|
+            (match patterns { Some(l) => list == l@, None => list.no_duplicates() && list.to_set() =~= pats_of(old(conn_subs)@, connection_id) })
+            && pats_of(final(conn_subs)@, connection_id) =~= pats_of(old(conn_subs)@, connection_id).difference(list.to_set())
+            && r->Ok_0@.len() == list.len()
+            && (forall|i: int| 0 <= i < list.len() ==> punsub_result_ok(#[trigger] r->Ok_0@[i], old(conn_subs)@, connection_id, list, i)),
+//@@ body
+//@@ end
+
+// ======================= message and acknowledgement frames =========================
+/// the frame `RespFrame::from_string(s)` builds for a literal kind tag (uninterpreted: a bulk string of the tag's bytes)
+pub uninterp spec fn tag_frame(s: Seq<char>) -> RespFrame;
+impl RespFrame {
+    /// ASSUMED CONTRACT (resp.rs from_string, `impl Into<String>` argument)
+    #[verifier::external_body]
+    pub fn from_string(s: &str) -> (r: Self) ensures r == tag_frame(s@), { unimplemented!() }
+    /// ASSUMED CONTRACT (resp.rs from_bytes: `BulkString(Some(Arc::new(bytes)))`)
+    #[verifier::external_body]
+    pub fn from_bytes(bytes: Vec<u8>) -> (r: Self) ensures r matches RespFrame::BulkString(Some(a)) && a@ == bytes@, { unimplemented!() }
+}
+pub open spec fn is_bulk(f: RespFrame, b: Seq<u8>) -> bool { f matches RespFrame::BulkString(Some(a)) && a@ == b }
+/// ["message", channel, payload] — bytes intact
+pub open spec fn message_frame(f: RespFrame, channel: Seq<u8>, payload: Seq<u8>) -> bool {
+    f matches RespFrame::Array(Some(v)) && v@.len() == 3 && v@[0] == tag_frame("message"@) && is_bulk(v@[1], channel) && is_bulk(v@[2], payload)
+}
+/// ["pmessage", pattern, channel, payload] — bytes intact
+pub open spec fn pmessage_frame(f: RespFrame, pattern: Seq<u8>, channel: Seq<u8>, payload: Seq<u8>) -> bool {
+    f matches RespFrame::Array(Some(v)) && v@.len() == 4 && v@[0] == tag_frame("pmessage"@) && is_bulk(v@[1], pattern) && is_bulk(v@[2], channel) && is_bulk(v@[3], payload)
+}
+/// [kind, name, count]
+pub open spec fn ack_frame(f: RespFrame, kind: Seq<char>, name: Seq<u8>, count: usize) -> bool {
+    f matches RespFrame::Array(Some(v)) && v@.len() == 3 && v@[0] == tag_frame(kind) && is_bulk(v@[1], name) && v@[2] == RespFrame::Integer(count as i64)
+}
+//@@ unit format_message fn src/pubsub.rs format_message
+pub fn format_message(channel: &[u8], message: &[u8]) -> (r: RespFrame)
+    ensures message_frame(r, channel@, message@),
+//@@ body
+//@@ end
+//@@ unit format_pmessage fn src/pubsub.rs format_pmessage
+pub fn format_pmessage(pattern: &[u8], channel: &[u8], message: &[u8]) -> (r: RespFrame)
+    ensures pmessage_frame(r, pattern@, channel@, message@),
+//@@ body
+//@@ end
+//@@ unit format_subscribe_response fn src/pubsub.rs format_subscribe_response
+pub fn format_subscribe_response(channel: &[u8], num_subs: usize) -> (r: RespFrame)
+    ensures ack_frame(r, "subscribe"@, channel@, num_subs),
+//@@ body
+//@@ end
+//@@ unit format_psubscribe_response fn src/pubsub.rs format_psubscribe_response
+pub fn format_psubscribe_response(pattern: &[u8], num_subs: usize) -> (r: RespFrame)
+    ensures ack_frame(r, "psubscribe"@, pattern@, num_subs),
+//@@ body
+//@@ end
+//@@ unit format_unsubscribe_response fn src/pubsub.rs format_unsubscribe_response
+pub fn format_unsubscribe_response(channel: &[u8], num_subs: usize) -> (r: RespFrame)
+    ensures ack_frame(r, "unsubscribe"@, channel@, num_subs),
+//@@ body
+//@@ end
+//@@ unit format_punsubscribe_response fn src/pubsub.rs format_punsubscribe_response
+pub fn format_punsubscribe_response(pattern: &[u8], num_subs: usize) -> (r: RespFrame)
+    ensures ack_frame(r, "punsubscribe"@, pattern@, num_subs),
 //@@ body
 //@@ end
 
